@@ -508,6 +508,9 @@ impl Memfs {
 
                     // Copy the src file over as well
                     if !src.is_symlink() {
+                        if !guard.contains_file(&dst_path) {
+                            return Err(PathError::is_not_file(&dst_path).into());
+                        }
                         let dst_file = self._clone_file(guard, src.path())?;
                         guard.insert_file(dst_path, dst_file);
                     }
